@@ -131,7 +131,9 @@ CONFIG = {
     "C13": {
         "rule": "cases = satisfaction requests (as C12 plus currentChoice absent/considered/known only, explicit decreasing lists "
                 "and both decreasing series); oracle = reference acceptance walk in search order (current first) over the reference "
-                "level series: exact for fixed order, existential over orders otherwise; accepted entries in acceptance order with "
+                "level series: exact for fixed order, existential over orders otherwise plus a run-level aggregate (among >= 40 "
+                "random-order decisions whose outcome depends on the order, with and without a bias that changed the criteria set, "
+                "at least one differs from the listing-order walk); accepted entries in acceptance order with "
                 "level index and full threshold map which they really satisfy, leftovers with the index after the last level and "
                 "the worst end of every range (declared, else over all known alternatives). Non-trivial = >= 3 ranked alternatives "
                 "with acceptances at >= 2 levels or a leftover; distinct by request text",
